@@ -517,6 +517,7 @@ def _launches(prog, fid, depth):
         return True
     if fid not in prog.fns or depth <= 0:
         return False
+    _LAUNCH = prog.__dict__.setdefault('_launch_memo', {})      # per program
     if fid in _LAUNCH:
         return _LAUNCH[fid]
     _LAUNCH[fid] = False
